@@ -55,8 +55,10 @@ def gen_plan(rng, tier, idx, opts):
             n = max(1, min(n, limit - pos))
             ops.append({"op": "skip", "n": n})
             pos += n
-        elif r < 0.36:
+        elif r < 0.33:
             ops.append({"op": "get"})
+        elif r < 0.36:
+            ops.append({"op": "sibling", "n": rng.randint(1, 20)})     # a similar generator is created and used in between
         elif r < 0.46 and bursty and pos < limit // 2 and sum(1 for o in ops if o["op"] == "burst") < 3:
             # a long run of tiny requests: what a streaming user does, and where per-call drift would accumulate
             cnt = int(10 ** rng.uniform(2, 3.7))
@@ -138,6 +140,18 @@ def execute(plan):
                     if last is not None and (np.shape(s) != np.shape(last) or not np.array_equal(s, last)):
                         viol("value", step, "get_samples() changed without a new request")
                     log.add("get")
+                elif o == "sibling":
+                    g2 = gen.get_similar_fading_generator()
+                    g2.generate_more_samples(op["n"])
+                    g2.skip_samples_for_next_generation(op["n"])
+                    if np.shape(g2._phi_l) == np.shape(phi) and phi.size > 1 and np.array_equal(g2._phi_l, phi):
+                        viol("phases", step, "a similar generator shares this generator's random phases")
+                        break
+                    if not (np.array_equal(gen._phi_l, phi) and np.array_equal(gen._psi_l, psi)):
+                        viol("phases", step, "creating/using a similar generator changed this generator's random phases")
+                        break
+                    log.add("sibling", op["n"])
+                    bump(res["probes"], "sibling_generator_used")
                 elif o == "burst":
                     nn = op["n"]
                     for b in range(op["count"]):
